@@ -13,6 +13,7 @@ import DaskModel.Model.AlignIO
 import DaskModel.Model.MergePlanIO
 import DaskModel.Model.PartQuantIO
 import DaskModel.Model.GroupbyXIO
+import DaskModel.Model.AlignDivsIO
 open Dask
 
 /-- `(sdl (seq…) npartitions n)` / `(sdl (seq…) chunksize c)` ↦ `(ok (divisions…) (locations…))` | `(raised)` -/
@@ -402,6 +403,6 @@ def table : List (String × Handler) := [("sdl", hSdl), ("sdl-stats", hSdlStats)
   ("tofewer-bounds", hToFewerBounds), ("split-positions", hSplitPositions), ("nsplits", hNsplits),
   ("lower-kind", hLowerKind), ("div-layer", hDivLayer), ("div-layer-ok", hDivLayerOK), ("repart-divs", hRepartDivs),
   ("tofewer", hToFewer), ("tomore", hToMore),
-  ("iter-chunks", hIterChunks), ("size-nsplits", hSizeNsplits), ("repart-size", hRepartSize)] ++ Dask.CsvOpts.handlers ++ Dask.MergeAsof.handlers ++ Dask.Align.handlers ++ Dask.MergePlan.handlers ++ Dask.SortValuesIO.handlers ++ Dask.PQ.handlers ++ Dask.GroupbyX.handlers
+  ("iter-chunks", hIterChunks), ("size-nsplits", hSizeNsplits), ("repart-size", hRepartSize)] ++ Dask.CsvOpts.handlers ++ Dask.MergeAsof.handlers ++ Dask.Align.handlers ++ Dask.MergePlan.handlers ++ Dask.SortValuesIO.handlers ++ Dask.PQ.handlers ++ Dask.GroupbyX.handlers ++ Dask.AlignDivs.handlers
 
 def main : IO Unit := runDriver table
